@@ -42,6 +42,12 @@ def showLoc (l : List Nat) : String := if l.length > 10 then "set" ++ showIds (s
 
 def tipStr (r : Repo) : String := s!"h={tipHeight r} tip={tipId r} work={tipWork r}"
 
+/-- the invalid-hash list as it is in storage. -/
+def showStoredInvalid (r : Repo) : String :=
+  match r.store.invalid with
+  | none => "inv=none"
+  | some l => s!"inv={showIds l}"
+
 def showFail (stage : String) : Option Fail → String
   | none => "ok"
   | some (.err _) => "err:" ++ stage
@@ -280,11 +286,11 @@ def stepLine (s0 : DState) (line : String) : DState × String :=
     | none => (s, "bad-op")
   | "mark" :: rest =>
     match kvNat rest "id" with
-    | some id => let (r, e) := markInvalid s.repo id; ({ s with repo := r }, s!"r={showFail "mark" e} {tipStr r}")
+    | some id => let (r, e) := markInvalid s.repo id; ({ s with repo := r }, s!"r={showFail "mark" e} {tipStr r} {showStoredInvalid r}")
     | none => (s, "bad-op")
   | "unmark" :: rest =>
     match kvNat rest "id" with
-    | some id => let r := markNotInvalid s.repo id; ({ s with repo := r }, s!"r=ok {tipStr r}")
+    | some id => let r := markNotInvalid s.repo id; ({ s with repo := r }, s!"r=ok {tipStr r} {showStoredInvalid r}")
     | none => (s, "bad-op")
   | "dump" :: rest => (s, dump s ((kvNat rest "step").getD 1))
   | "loc" :: rest =>
